@@ -18,10 +18,11 @@ type C04Case struct {
 	In      string   `json:"in"`
 	MemoAll bool     `json:"memoAll"`
 	Interp  int      `json:"interp"` // 0: strict concatenation, 1: concatenation that skips EMPTY
+	PreLen  int      `json:"preLen,omitempty"` // > 0: the parsed file follows a file of that length
 }
 
 func (c *C04Case) Describe() string {
-	return fmt.Sprintf("grammar: %s input: %q memoAll=%v interp=%d", c.G, c.In, c.MemoAll, c.Interp)
+	return fmt.Sprintf("grammar: %s input: %q memoAll=%v interp=%d preLen=%d", c.G, c.In, c.MemoAll, c.Interp, c.PreLen)
 }
 
 // concatInterp concatenates the values of the children (runes and strings).
@@ -65,8 +66,9 @@ func checkC04(ci interface{}, st *Stats) error {
 	run := func(evaluate bool) (node parsley.Node, val interface{}, err error, berr error) {
 		probe := NewProbe()
 		probe.InLen = len(in)
+		ctx, _, pb := NewCtxAt(in, c.PreLen)
+		probe.Base = pb
 		b := Build(g, BuildOpts{MemoRules: memo, Probe: probe, Interp: concatInterp(c.Interp == 1)})
-		ctx, _ := NewCtx(in)
 		defer func() {
 			if r := recover(); r != nil {
 				if _, ok := r.(budgetExceeded); ok {
@@ -132,8 +134,12 @@ func checkC04(ci interface{}, st *Stats) error {
 		st.Class("grammar with SuppressError")
 	}
 	st.Class("accepted")
-	if node.Pos() != 1 || int(node.ReaderPos()) != 1+len(in) {
-		return fmt.Errorf("root spans %d..%d, want 0..%d", int(node.Pos())-1, int(node.ReaderPos())-1, len(in))
+	_, _, base := NewCtxAt(in, c.PreLen)
+	if c.PreLen > 0 {
+		st.Class("file placed after another file")
+	}
+	if int(node.Pos()) != base || int(node.ReaderPos()) != base+len(in) {
+		return fmt.Errorf("root spans %d..%d, want 0..%d", int(node.Pos())-base, int(node.ReaderPos())-base, len(in))
 	}
 	// Sentence returns the sequence [result, EOF]; a root that is the result itself would satisfy
 	// the property just as well
@@ -141,11 +147,11 @@ func checkC04(ci interface{}, st *Stats) error {
 	if rn, ok := node.(*ast.NonTerminalNode); ok && len(rn.Children()) == 2 && rn.Children()[1].Token() == "EOF" {
 		child = rn.Children()[0]
 	}
-	if !NewValidator(ref, 1).Valid(g.Rules[0], child, 0) {
-		return fmt.Errorf("the returned tree is no derivation of N0: %s", RenderNode(child, 1))
+	if !NewValidator(ref, base).Valid(g.Rules[0], child, 0) {
+		return fmt.Errorf("the returned tree is no derivation of N0: %s", RenderNode(child, base))
 	}
-	if int(child.ReaderPos()) != 1+len(in) {
-		return fmt.Errorf("the selected parse ends at %d, not at the end of input", int(child.ReaderPos())-1)
+	if int(child.ReaderPos()) != base+len(in) {
+		return fmt.Errorf("the selected parse ends at %d, not at the end of input", int(child.ReaderPos())-base)
 	}
 	tr := NewTreeRef(ref, 50, 8)
 	if tr.Capped || len(tr.T[0][0]) > 1 {
@@ -197,7 +203,11 @@ func init() {
 				o.Skeleton = false
 			}
 			g := GenGrammar(t, o)
-			return &C04Case{G: g, In: GenInput(t, g, o), MemoAll: rapid.Bool().Draw(t, "memoAll"), Interp: rapid.IntRange(0, 1).Draw(t, "interp")}
+			pre := 0
+			if rapid.IntRange(0, 3).Draw(t, "placed") == 0 {
+				pre = rapid.IntRange(1, 20).Draw(t, "preLen")
+			}
+			return &C04Case{G: g, In: GenInput(t, g, o), MemoAll: rapid.Bool().Draw(t, "memoAll"), Interp: rapid.IntRange(0, 1).Draw(t, "interp"), PreLen: pre}
 		},
 		Check: checkC04,
 	})
